@@ -220,7 +220,10 @@ class C10(Check):
             "levels, rate_limit in {None,0..4}, enable_adaptive both ways, 3..12 operations from {filter, learn_threat, forget_threat, "
             "import_antibodies (exported by a second real Membrane), add_signature, set_threshold, clock tick, clear_audit_log} under a "
             "virtual clock (ticks of 0, 0.5 s, 59.5/60/60.5 s gaps, bursts at the limit, occasionally a backwards tick); scripted "
-            "scenarios: block-then-relax-then-replay, block-then-case-flip/benign-embedding, rate bursts. innate histories (30%): subset "
+            "scenarios: admit-then-TIGHTEN-then-replay of the byte-identical input (the matching signature becomes blocking through "
+            "each of import_antibodies / learn_threat / add_signature / a lowered threshold, substring and regex, with unrelated "
+            "operations in between; innate: add_pattern / add_validator) - a systematic family run on every run (exhaustive_cases) "
+            "plus random members; block-then-relax-then-replay, block-then-case-flip/benign-embedding, rate bursts. innate histories (30%): subset "
             "of the 17 default patterns + custom patterns (severity -1..6), threshold 0..6, validators from {default pair, Length, "
             "CharacterSet, JSONValidator, stubs returning (False,None)/(False,'')/(True,'x') or raising}, check/add_pattern/"
             "add_validator/reset/tick. per-signature batches (25%): every shipped signature and generated custom regexes/substrings "
@@ -319,6 +322,90 @@ class C10(Check):
         if rng.random() < 0.06:
             s = s + " " + self._instance(rng.choice(pool), rng)
         return s[:MAX_COQ_LEN]
+
+    # -- admit / TIGHTEN / replay of the byte-identical input ---------------------
+    MEM_TIGHTEN = ["import", "learn", "addsig", "thr"]
+    INN_TIGHTEN = ["addpat", "addval"]
+
+    def _unrelated_mem(self, rng, allow_rule_ops):
+        """operations that do not activate the chosen signature"""
+        pool = [["tick", rng.choice([0, 1, 3, 120, 121])], ["clear"], ["filter", benign(rng, rng.randint(1, 3))]]
+        if allow_rule_ops:
+            pool += [["forget", "no such pattern"], ["learn", {"id": 900, "pattern": "zzqq unrelated", "regex": False, "level": 3}],
+                     ["addsig", {"id": 901, "pattern": r"qqzz\d+", "regex": True, "level": 3}],
+                     ["import", [{"id": 902, "pattern": "qzqz unrelated", "regex": False, "level": 2}]]]
+        return [rng.choice(pool) for _ in range(rng.choice([0, 0, 1, 2]))]
+
+    def _tighten_mem(self, rng, method, g, x, allow_rule_ops=False):
+        """filter(x) admitted while g is inactive/non-blocking; g becomes blocking through `method`; filter(x) again"""
+        nb = len(self._shipped()[0])
+        if method == "thr":
+            lvl = rng.choice([1, 2])
+            g = {**g, "level": lvl}
+            case = {"kind": "mem", "scenario": "tighten:" + method, "builtin": list(range(nb)), "custom": [g],
+                    "threshold": lvl + 1, "rate": None, "adaptive": True, "t0": T0_TICKS, "ops": []}
+            act = ["thr", rng.randint(0, lvl)]
+        else:
+            thr = rng.choice([1, 2, 2, 3])
+            g = {**g, "level": rng.randint(thr, 3)}
+            case = {"kind": "mem", "scenario": "tighten:" + method, "builtin": list(range(nb)), "custom": [],
+                    "threshold": thr, "rate": None, "adaptive": True, "t0": T0_TICKS, "ops": []}
+            act = {"import": ["import", [g]], "learn": ["learn", g], "addsig": ["addsig", g]}[method]
+        ops = case["ops"]
+        ops.append(["filter", x])
+        if rng.random() < 0.3:
+            ops.append(["filter", x])                      # a second admission of the same bytes
+        ops += self._unrelated_mem(rng, allow_rule_ops)
+        ops.append(act)
+        ops += self._unrelated_mem(rng, False)
+        ops.append(["filter", x])
+        ops.append(["filter", flip_case(x, rng) if rng.random() < 0.5 else x])
+        return case
+
+    def _tighten_inn(self, rng, method, g, x):
+        nb = len(self._shipped()[1])
+        thr = rng.choice([1, 2, 3, 3, 4, 5])
+        g = {**g, "level": rng.randint(thr, 6)}
+        case = {"kind": "inn", "scenario": "tighten:" + method, "builtin": list(range(nb)), "custom": [],
+                "validators": rng.choice([[], [["char", True, True]], [["len", 0, 100000]]]), "threshold": thr,
+                "decay": 15, "t0": 0, "ops": [["check", x]]}
+        ops = case["ops"]
+        for _ in range(rng.choice([0, 0, 1, 2])):
+            ops.append(rng.choice([["tick", rng.choice([1, 901])], ["reset"], ["check", benign(rng, 2)]]))
+        if method == "addpat":
+            ops.append(["addpat", g])
+        else:
+            ops.append(["addval", rng.choice([["len", 0, max(0, len(x) - 1)], ["len", len(x) + 1, 100000],
+                                              ["json", 10, 100000]])])
+        for _ in range(rng.choice([0, 0, 1])):
+            ops.append(rng.choice([["tick", 1], ["reset"]]))
+        ops.append(["check", x])
+        return case
+
+    def _tighten_pair(self, rng, pat, rx, innate=False):
+        g = {"id": 150, "pattern": pat, "regex": rx, "level": 3}
+        core = self._instance(g, rng)
+        if rng.random() < 0.5:
+            core = flip_case(core, rng)
+        return g, embed(core, rng)[:MAX_COQ_LEN]
+
+    def exhaustive_cases(self):
+        """the systematic admit/tighten/replay family: every rule-changing operation x substring/regex signatures"""
+        import random as _random
+        rng = _random.Random(f"C10:tighten:{self.seed}")
+        pats = [("secret", False), ("Drop Table", False), (r"\bsudo\b", True), (r"rm\s+-rf", True), (r"pass\w+", True),
+                ("\u4e2d", False), (r"<<.*>>", True), (r"(cat|dog)s?", True)]
+        reps = 1 if self.tier == "quick" else 6
+        out = []
+        for _ in range(reps):
+            for pat, rx in pats:
+                for method in self.MEM_TIGHTEN:
+                    g, x = self._tighten_pair(rng, pat, rx)
+                    out.append(self._tighten_mem(rng, method, g, x, allow_rule_ops=rng.random() < 0.3))
+                for method in self.INN_TIGHTEN:
+                    g, x = self._tighten_pair(rng, pat, rx, innate=True)
+                    out.append(self._tighten_inn(rng, method, g, x))
+        return out
 
     def _gen_mem(self, rng):
         shipped = [s for s in self._shipped()[0]]
@@ -488,7 +575,14 @@ class C10(Check):
                     out.append({"kind": "shipped", "innate": which, "idx": i, "contents": self._batch_contents(rng, s, 10)})
         for k in range(max(0, n - len(out))):
             r = rng.random()
-            if r < 0.5:
+            if r < 0.08:
+                rx = rng.random() < 0.5
+                g, x = self._tighten_pair(rng, rng.choice(RX_ATOMS) if rx else rng.choice([p for p in SUBS if p.strip()]), rx)
+                if rng.random() < 0.7:
+                    out.append(self._tighten_mem(rng, self.MEM_TIGHTEN[k % 4], g, x, allow_rule_ops=rng.random() < 0.3))
+                else:
+                    out.append(self._tighten_inn(rng, self.INN_TIGHTEN[k % 2], g, x))
+            elif r < 0.5:
                 out.append(self._gen_mem(rng))
             elif r < 0.83:
                 out.append(self._gen_inn(rng))
@@ -979,6 +1073,13 @@ class C10(Check):
         if k in ("shipped", "sig"):
             ks += ["sig-match" if r else "sig-nomatch" for r in trace.get("res", [])]
             return ks
+        if case.get("scenario"):
+            key = "filter" if k == "mem" else "check"
+            fs = [st for st in trace.get("steps", []) if st["op"] == key and st.get("content") == case["ops"][0][1]
+                  and "allowed" in st]
+            if fs:
+                ks.append(case["scenario"] + (":admitted-then-blocked" if fs[0]["allowed"] and not fs[-1]["allowed"]
+                                              else ":first-not-admitted" if not fs[0]["allowed"] else ":STILL-ADMITTED"))
         for st in trace.get("steps", []):
             ks.append("op=" + st["op"])
             if st["op"] == "filter" and "allowed" in st:
